@@ -143,6 +143,8 @@ int cif_pktitr_next_packet(
         sqlite3_stmt *stmt = iterator->stmt;
         int current_row = sqlite3_column_int(stmt, 0);
         cif_packet_tp *temp_packet;
+        /* an entry removed from the temporary packet but not (yet) added to the result packet */
+        struct entry_s *orphan = NULL;
         int result;
     
         assert (iterator->item_names != NULL);
@@ -251,15 +253,18 @@ int cif_pktitr_next_packet(
                             /* can't add new items to a dependent target packet */
                             FAIL(soft, CIF_ARGUMENT_ERROR);
                         } else {
-                            HASH_DEL(temp_packet->map.head, entry);
-                            name_len = (size_t) U_BYTES(entry->key);
-    
                             /* convert the entry to standalone, for compatibility with the packet */
-                            entry->key = cif_u_strdup(entry->key);
-    
-                            if (entry->key != NULL) {
-                                /* add the entry to the packet */
+                            UChar *key_copy = cif_u_strdup(entry->key);
+
+                            if (key_copy != NULL) {
+                                HASH_DEL(temp_packet->map.head, entry);
+                                name_len = (size_t) U_BYTES(entry->key);
+                                entry->key = key_copy;
+
+                                /* add the entry to the packet; until that succeeds it belongs to neither packet */
+                                orphan = entry;
                                 HASH_ADD_KEYPTR(hh, (*packet)->map.head, entry->key, name_len, entry);
+                                orphan = NULL;
                             } else {
                                 FAIL(soft, CIF_MEMORY_ERROR);
                             }
@@ -274,6 +279,9 @@ int cif_pktitr_next_packet(
             }
     
             FAILURE_HANDLER(soft):
+            if (orphan != NULL) {
+                cif_map_entry_free_internal(orphan, &((*packet)->map));
+            }
             cif_packet_free(temp_packet);
         }
     
